@@ -206,6 +206,20 @@ def check_fromitp(case):
                     mm = top.molecules[0]
                     if digest_for_roundtrip(H.mol_digest(mm.molecule)) != digest_for_roundtrip(r["captured"]):
                         viols.append(dict(assertion="reread-atoms-equal", tags=["from_itp"], message=f"sequence {seq} start {start} base {base}: file differs from built molecule", case=case1, detail={}))
+                    # the program's own view: a residue edge it did not warn about must be in the residue graph read back
+                    import re as _re
+                    warned = set()
+                    for lvl, msg, _ in r["logs"]:
+                        m_ = _re.search(r"Missing a link between residue (\S+) (\S+) and residue (\S+) (\S+)\.", msg)
+                        if m_ and lvl == "WARNING":
+                            warned.add(frozenset((int(m_.group(1)), int(m_.group(3)))))
+                    file_edges = {frozenset((mm.nodes[a].get("resid"), mm.nodes[b].get("resid"))) for a, b in mm.edges}
+                    for i in range(n - 1):
+                        e = frozenset((rg["resids"][i], rg["resids"][i + 1]))
+                        if e not in warned and e not in file_edges and len(viols) < 20:
+                            viols.append(dict(assertion="no-warning-implies-edge-in-file", tags=["from_itp"],
+                                              message=f"sequence {seq} start {start}: residues {sorted(e)} requested as connected, no missing-link warning, "
+                                                      f"but the file has no bond between them (edges read back {sorted(map(sorted, file_edges))})", case=case1, detail={}))
                     got = sorted((mm.nodes[x].get("resname"), mm.nodes[x].get("resid")) for x in mm.nodes)
                     want = sorted((rg["resnames"][i], rg["resids"][i]) for i in range(n))
                     if got != want:
